@@ -119,6 +119,15 @@ impl<V> BTreeMap<String, V> {
     {
         unimplemented!()
     }
+
+    /// BTreeMap<String, V>::contains_key(&str) through Borrow<str>
+    #[verifier::external_body]
+    pub fn contains_key_str(&self, key: &str) -> (r: bool)
+        ensures
+            r == self@.contains_key(skey(key@)),
+    {
+        unimplemented!()
+    }
 }
 
 /// std::collections::BTreeSet as a set (A-btree)
